@@ -107,7 +107,7 @@ class EWorld:
         cur = self.prior.get(i, (True, 1))
         buf = b""
         for ev in events:
-            value = self.val1 if ev is self.ev1 else self.val2
+            value = self.val1 if ev == self.ev1 else self.val2
             buf = buf + self.notification(ev, value, cur[1])
             cur = SS.next_session(cur)
         return buf
